@@ -4,26 +4,33 @@ import itertools
 from ..teval import (Adt, Tup, Ref, Place, Cell, Sym, RList, Top, Panicked, strip, some, none, ok, err, Interp)
 from .. import tabulate, models
 from . import c13, c20
+from . import pathmodel as PM
 
 EXPLANATION = (
-    "NARROW: depth / pivot arithmetic, rooted bases and bases with a trailing `.` are NOT decided.  Decided: (join) "
-    "split_at_depth returns (a, self.strip_prefix(a)) for an ancestor a of the same path, for every depth including "
-    "depths beyond the number of components, so joining the two segments gives the path back - evaluated on abstract "
-    "paths of 0..3 components; (same) GlobEntry::root_relative_paths, GlobEntry::depth and the walker's candidate "
-    "computation use the same helper with (entry path, walkdir depth, the pivot stored in the entry) and the same sum "
-    "depth + pivot; TreeEntry::root_relative_paths splits at its own depth; (matched) to_candidate_path returns the "
-    "complete matched text, which is the relative segment the complete program was matched on (C02.gate).")
-RULES = "C14.join (PROV), C14.same (SIBLING), C14.matched (= C02.gate)"
+    "Decided on abstract paths (component sequences with an optional RootDir / CurDir lead, `..` as an ordinary component) by "
+    "evaluating the THIR of the functions involved: (join) split_at_depth returns (a, self.strip_prefix(a)) for an ancestor a "
+    "of the same path, for every depth including depths beyond the number of components, so joining the two segments gives "
+    "the path back; (pivot) for every base directory shape (empty, `.`, `proj` = `proj/` = `proj/.`, `a/b`, `./proj`, `/`, "
+    "`/abs`, `/abs/dir`) x prefix shape (none, one or two literal components, rooted with 0..2 components, `..`, `../p`, "
+    "`p/..`, `./p`) x traversal depth 0..2, the pivot computed by join_and_get_depth makes the root segment the directory "
+    "given to the walk (empty for a rooted glob), the relative segment the prefix as written plus the traversed names (the "
+    "whole path for a rooted glob), and depth() = traversal depth + pivot equal to the number of components of the relative "
+    "segment; (same) GlobEntry::root_relative_paths, GlobEntry::depth and the walker's candidate computation use the same "
+    "helper with (entry path, walkdir depth, the pivot stored in the entry) and the same sum; TreeEntry::root_relative_paths "
+    "splits at its own depth; (matched) to_candidate_path returns the complete matched text, which is the relative segment "
+    "the complete program was matched on (C02.gate).")
+RULES = "C14.join (PROV), C14.pivot (TABLE), C14.same (SIBLING), C14.matched (= C02.gate)"
 
 
 def run(ctx):
     F = ctx.facts()
     R = ctx.report
     R.assume("std::path ancestors / strip_prefix semantics; walkdir depth = number of components below the walk root")
-    R.undecided("that depth equals the number of components of the relative segment for rooted globs and for bases with a "
-                "trailing separator or `.` (pivot computed by counting components of a joined path)")
+    R.assume("std::path semantics as modelled in sa/rules/pathmodel.py; textual variants of one component sequence (trailing separator, trailing `.`) behave alike")
+    R.undecided("Windows path prefixes; bases that contain `..`")
     rule_join(F, R)
     rule_same(F, R)
+    rule_pivot(F, R)
 
 
 def P(comps):
@@ -109,3 +116,100 @@ def rule_same(F, R):
     res = strip(tabulate.single(I9.explore(lambda: I9.call_item(mt, [Ref(Place(Cell(Sym("matched"))))]))))
     R.check(isinstance(res, Sym) and res.name == "cand(complete(matched))", "C14.matched", "MatchedText::to_candidate_path", "candidate = complete matched text (capture 0)", mt.where(),
             fail_msg="MatchedText::to_candidate_path returns %r" % (res,))
+
+
+BASES = {
+    # name -> (lead, components); `rel1` stands for `proj`, `proj/` and `proj/.` alike (std::path works on components)
+    "empty": ("", ()), "dot": (".", ()), "rel1": ("", ("b1",)), "rel2": ("", ("b1", "b2")),
+    "dot-rel1": (".", ("b1",)), "root": ("/", ()), "abs1": ("/", ("b1",)), "abs2": ("/", ("b1", "b2")),
+}
+PREFIXES = {
+    # the invariant prefix of the glob as a native path; `..` is an ordinary (ParentDir) component, a leading `.` is CurDir
+    "none": None, "rel1": ("", ("p1",)), "rel2": ("", ("p1", "p2")), "rooted0": ("/", ()), "rooted1": ("/", ("p1",)),
+    "rooted2": ("/", ("p1", "p2")), "parent": ("", ("..",)), "parent-rel1": ("", ("..", "p1")), "rel1-parent": ("", ("p1", "..")),
+    "dot-rel1": (".", ("p1",)),
+}
+
+
+def pivot_cells(F):
+    """Evaluates join_and_get_depth and split_at_depth (THIR) on every base x prefix x traversal depth cell.
+    -> list of (instance, cell description, problems: [(aspect, signature, text)], detail, where)"""
+    jit = F.find("<std::path::Path as walk::JoinAndGetDepth>::join_and_get_depth")
+    sit = F.find("<std::path::Path as walk::SplitAtDepth>::split_at_depth")
+    stubs = PM.stubs()
+    stubs["std::convert::AsRef::as_ref"] = lambda I, a, fn, e: strip(a[0])
+    out = []
+    for (bname, b), (pname, p) in itertools.product(BASES.items(), PREFIXES.items()):
+        base = PM.P(*b)
+        if b == ("", ()) and p is None:
+            continue  # walking "" without a prefix is not a directory
+        if p is None:
+            root, pivot = base, 0   # Glob::anchor: no prefix -> (path, 0)
+        else:
+            I = Interp(F, stubs)
+            res = tabulate.single(I.explore(lambda: I.call_item(jit, [Ref(Place(Cell(base))), PM.P(*p)], inst=False)))
+            r = strip(res)
+            if not (isinstance(r, Tup) and PM.is_path(r.items[0]) and isinstance(strip(r.items[1]), int)):
+                out.append(("base=%s/prefix=%s" % (bname, pname), "", [("eval", "unanalysable", "join_and_get_depth panics / is unanalysable: %r" % (res,))], "", jit.where()))
+                continue
+            root, pivot = strip(r.items[0]), strip(r.items[1])
+        rooted = p is not None and p[0] == "/"
+        for d in range(0, 3):
+            inst = "base=%s/prefix=%s/traversal-depth=%d" % (bname, pname, d)
+            below = tuple("e%d" % i for i in range(1, d + 1))
+            path = PM.P(PM.lead(root), PM.comps(root) + below)
+            I2 = Interp(F, stubs)
+            res = tabulate.single(I2.explore(lambda: I2.call_item(sit, [Ref(Place(Cell(path))), d + pivot])))
+            r = strip(res)
+            if not (isinstance(r, Tup) and PM.is_path(r.items[0]) and PM.is_path(r.items[1])):
+                out.append((inst, "", [("eval", "unanalysable", "split_at_depth panics / is unanalysable: %r" % (res,))], "", sit.where()))
+                continue
+            rootseg, rel = strip(r.items[0]), strip(r.items[1])
+            want_root = PM.P("", ()) if rooted else base
+            # the relative segment is the text the glob is matched on: the prefix as written, then the traversed names
+            want_rel = path if rooted else PM.P(p[0] if p else "", (p[1] if p else ()) + below)
+            problems = []
+            if not PM.same(PM.join(rootseg, rel), path):
+                problems.append(("join", "segments do not join to the path", "joining the segments gives %s, not the path" % PM.show(PM.join(rootseg, rel))))
+            if not PM.same(rootseg, want_root):
+                problems.append(("root", "root segment differs", "the root segment is %s, expected %s" % (
+                    PM.show(rootseg), PM.show(want_root) + (" (empty: the glob is rooted)" if rooted else " (the directory given to the walk)"))))
+            if not PM.same(rel, want_rel):
+                sig = "relative segment lacks the leading `.` of the prefix" if (
+                    p and p[0] == "." and PM.same(rel, PM.P("", PM.comps(want_rel)))) else "relative segment differs"
+                problems.append(("relative", sig, "the relative segment is %s, expected %s (the prefix as written in the glob, then the traversed "
+                                 "names): the complete program is matched on this text" % (PM.show(rel), PM.show(want_rel))))
+            if d + pivot != PM.n_components(rel):
+                problems.append(("depth", "depth differs from the component count by %+d" % (d + pivot - PM.n_components(rel)),
+                                 "depth() = traversal depth %d + pivot %d = %d, but the relative segment %s has %d component(s)" % (
+                                     d, pivot, d + pivot, PM.show(rel), PM.n_components(rel))))
+            out.append((inst, "entry %s of a walk rooted at %s" % (PM.show(path), PM.show(root)), problems,
+                        "segments (%s, %s), depth %d" % (PM.show(rootseg), PM.show(rel), d + pivot), jit.where()))
+    return out
+
+
+def report_cells(F, R, rule, aspects, floor):
+    """One obligation per cell; deviations are grouped by (prefix shape, deviation) so that a known finding names the
+    deviation and any other deviation of the same cell is still new."""
+    n = 0
+    grouped = {}
+    for inst, desc, problems, detail, where in pivot_cells(F):
+        n += 1
+        mine = [p for p in problems if p[0] in aspects or p[0] == "eval"]
+        if not mine:
+            R.ok(rule, inst, detail, where, sample=(n % 23 == 0))
+            continue
+        prefix = inst.split("/")[1]
+        for aspect, sig, text in mine:
+            grouped.setdefault((prefix, sig), []).append((inst, desc, text, where))
+    for (prefix, sig), cells in sorted(grouped.items()):
+        inst, desc, text, where = cells[0]
+        R.fail(rule, "%s/%s" % (prefix, sig), "%d cell(s), first: %s: %s: %s" % (len(cells), inst, desc, text), where)
+    R.floor(rule, "base x prefix x depth cells", n, 230)
+
+
+def rule_pivot(F, R):
+    """C14.pivot (TABLE): the pivot computed by join_and_get_depth, fed through GlobEntry::depth's sum and
+    split_at_depth, gives the segments and the depth the property states, for every shape of base directory and prefix
+    and every traversal depth."""
+    report_cells(F, R, "C14.pivot", ("join", "root", "relative", "depth"), 230)
